@@ -72,7 +72,7 @@ MatchRecv(t, s, r, res) ==
     \* still waiting for the rest of a record/message: nothing was accepted, reported or changed
     /\ (res.loose /\ Live(n)) => /\ Accs(t) = <<>> /\ Len(t.alin) = 0
                                 /\ (t.rc \in {"RequestRecv", "Success"} \/ (s.cfg.dtls /\ t.rc = "RequestSend"))
-                                /\ (s.cfg.dtls => (t.hs = s.hs /\ (t.rs = 1) = ReadSecure(s)))
+                                /\ (s.cfg.dtls => ((t.rs = 1) = ReadSecure(s)))
     /\ Len(t.dlv) = res.ndlv
     /\ r.gen => \A i \in 1..Len(t.dlv) : t.dlv[i].ok = 1  \* what is delivered is what the peer application sent
     /\ ObsDead(t, s) = (n.dead # "no")
